@@ -68,6 +68,22 @@ def freeze(x):
     return x
 
 
+class PyIter(list):
+    """what map(...) or a generator expression returns: an iterator that can be traversed ONCE. The items are computed eagerly (the evaluated code has no effects that
+    could tell the difference); `used` records the traversal, a second one finds nothing - as in Python"""
+    used = False
+
+
+def consume(it):
+    """the items a traversal of `it` sees"""
+    if isinstance(it, PyIter):
+        if it.used:
+            return []
+        it.used = True
+        return list(it)
+    return it
+
+
 class PySet(dict):
     """a Python set of abstract values, in insertion order (keys of a dict)"""
 
@@ -268,6 +284,7 @@ class PyReader:
                     it = list(it)
                 if not isinstance(it, list):
                     self.fail(s.iter, "loop over a non-concrete sequence")
+                it = consume(it)
                 broke = False
                 for x in it:
                     self.assign(s.target, x, env, s)
@@ -570,6 +587,18 @@ class PyReader:
                 return (l == r) if isinstance(o, ast.Eq) else (l != r)
             if isinstance(l, int) and isinstance(r, int):
                 return {ast.Lt: l < r, ast.LtE: l <= r, ast.Gt: l > r, ast.GtE: l >= r}[type(o)]
+
+            def concrete(x):
+                if isinstance(x, int) and not isinstance(x, bool):
+                    return Fraction(x)
+                if isinstance(x, T) and x.op == "num":
+                    return x.val
+                if isinstance(x, T) and x.op == "neg" and x.args[0].op == "num":
+                    return -x.args[0].val
+                return None
+            cl, cr = concrete(l), concrete(r)
+            if cl is not None and cr is not None and isinstance(o, (ast.Lt, ast.LtE, ast.Gt, ast.GtE)):
+                return {ast.Lt: cl < cr, ast.LtE: cl <= cr, ast.Gt: cl > cr, ast.GtE: cl >= cr}[type(o)]  # two numbers
             self.fail(n, "comparison")
         if isinstance(n, ast.BoolOp):
             # Python's and/or: the value of the deciding operand
@@ -617,7 +646,8 @@ class PyReader:
                     raise Raised("IndexError", getattr(n, "lineno", 0))
             self.fail(n, "subscript")
         if isinstance(n, (ast.ListComp, ast.GeneratorExp)):
-            return [self.ev(n.elt, e2, fns) for e2 in self.comp_envs(n.generators, env, fns, n)]
+            items_ = [self.ev(n.elt, e2, fns) for e2 in self.comp_envs(n.generators, env, fns, n)]
+            return PyIter(items_) if isinstance(n, ast.GeneratorExp) else items_
         if isinstance(n, ast.DictComp):
             out = {}
             for e2 in self.comp_envs(n.generators, env, fns, n):
@@ -652,6 +682,7 @@ class PyReader:
             it = list(it)
         if not isinstance(it, list):
             self.fail(g.iter, "comprehension over a non-concrete sequence")
+        it = consume(it)
         out = []
         for x in it:
             e2 = dict(env)
@@ -845,6 +876,12 @@ class PyReader:
     extern_functions: dict = {}
 
     def ev_call(self, n: ast.Call, env: dict, fns: dict):
+        r = self._ev_call(n, env, fns)
+        if isinstance(n.func, ast.Name) and n.func.id == "map" and "map" not in env and "map" not in fns and "map" not in self.functions and type(r) is list:
+            return PyIter(r)  # map(...) is a one-shot iterator
+        return r
+
+    def _ev_call(self, n: ast.Call, env: dict, fns: dict):
         r = self.hook_call(n, env, fns)
         if r is not NotImplemented:
             return r
@@ -939,6 +976,11 @@ class PyReader:
             if not all(isinstance(q_, list) for q_ in seqs):
                 self.fail(n, "map over a non-concrete sequence")
             return [self.apply_value(fval, list(t_), n, fns) for t_ in zip(*seqs)]
+        if name == "pairwise" and len(n.args) == 1 and name not in self.functions and name not in env:
+            q_ = consume(self.ev(n.args[0], env, fns))
+            if not isinstance(q_, list):
+                self.fail(n, "pairwise of a non-concrete iterable")
+            return PyIter([[a_, b_] for a_, b_ in zip(q_, q_[1:])])
         if name == "chain" and not isinstance(n.func, ast.Attribute):
             out = []
             for a in n.args:
@@ -1052,10 +1094,11 @@ class PyReader:
                         elif n.func.attr == "remove":
                             raise Raised("KeyError", getattr(n, "lineno", 0))
                         return None
-                    if n.func.attr in ("update", "union") and len(args) == 1 and isinstance(args[0], (list, PySet)):
+                    if n.func.attr in ("update", "union") and all(isinstance(a_, (list, PySet)) for a_ in args):
                         tgt = base if n.func.attr == "update" else PySet(base)
-                        for x_ in args[0]:
-                            tgt[x_] = True
+                        for a_ in args:
+                            for x_ in a_:
+                                tgt[freeze(x_)] = True
                         return None if n.func.attr == "update" else tgt
                     if n.func.attr in ("issubset", "issuperset", "isdisjoint") and len(args) == 1 and isinstance(args[0], (list, PySet)):
                         other_ = list(args[0])
@@ -1097,6 +1140,8 @@ class PyReader:
             return len(args[0])
         if name in ("max", "min") and args and all(isinstance(a, int) for a in args):
             return max(args) if name == "max" else min(args)
+        if name in ("list", "tuple") and len(args) == 1 and isinstance(args[0], PyIter) and name not in self.functions:
+            return list(consume(args[0]))
         if name in ("list", "tuple") and len(args) == 1 and isinstance(args[0], list):
             return list(args[0])
         if name == "zip":
